@@ -701,7 +701,8 @@ class Agent_0(rpu.AgentComponent):
     def stop(self):
 
         self._log.info('stop agent')
-        self._final_cause = 'cancel'
+        if not self._final_cause:
+            self._final_cause = 'cancel'
         super().stop()
         self._session.close()
 
